@@ -1404,8 +1404,13 @@ def co_exec_table(crate):
         def unique(nm):
             # (a name shared by several functions of the library — new, insert, compose, check .. — says too little)
             return len([t for t in crate.by_name.get(nm, []) if t.kind != "Closure" and (t.file or "").startswith("src/")]) <= 1
+        def mutating(nm):
+            ts = [t for t in crate.by_name.get(nm, []) if t.kind != "Closure"]
+            return len(ts) == 1 and any(ts[0].local_ty(l).startswith("&mut") for l in range(1, ts[0].argc + 1))
         for x, ys in co_exec(crate, b, direct_only=True).items():
-            ys = sorted(y for y in ys if y not in always and unique(y))       # (what runs on every path anyway is the must-call census' business)
+            # (Y as well is a step that changes something: a read-only companion is typically the test that guards X, and a guard
+            #  may be replaced by an equivalent one — `if !g.contains(p) { g.add(p) }` by `if g.add(p)`)
+            ys = sorted(y for y in ys if y not in always and unique(y) and mutating(y))       # (what runs on every path anyway is the must-call census' business)
             # X is a step that changes something (a callee with a &mut parameter): a read-only call may be hoisted out of a loop
             # or shared between branches by a refactoring, which changes what accompanies it
             xt = [t for t in crate.by_name.get(x, []) if t.kind != "Closure"]
